@@ -28,6 +28,11 @@ CLAIMED = {
    note="Trusted: refpred.rs / spec.rs, the 'message present in the stream' oracle (resynchronisation after an error is the server's choice), overflow-checks + debug-assertions in the harness build. A set REPLY bit on a request and out-of-bounds reads that do not alter arguments are not judged here (the latter: ASan fuzz target). Descriptors passed by the generator back the ranges the messages declare (a mapping past the end of a file faults in any mmap-based back end).",
    technique="grammar-aware mutational property testing (proptest) with independent validity oracle; crash isolation by supervising process",
    ref="DESIGN.md section 3, C05"),
+ "C06": dict(level="exploration",
+   text="Mutation-based property testing of every reply parser on the front-end side: for each reply-awaiting call of Frontend (reply-bearing operations and acknowledged set-operations), Backend proxy (5 requests) and GpuBackend (4 calls) the raw peer answers with the conforming reply transformed by 0..2 mutators (code, REPLY bit, NEED_REPLY, version, reserved flag bits, size field, body bytes from the lattice, descriptors added/removed, truncation + close, random bytes); a three-valued oracle derived from the property's own conjunct list decides MUST_ACCEPT (returned value must equal the bytes sent) / MUST_REJECT (Ok is a fabricated success) / EITHER. The request server for back-end-initiated requests is fed mutated streams with 0..=3 descriptors: no panic (catch_unwind, crash isolation) and every handler invocation must be explained by a well-formed request literally present in the stream. 36k cases in quick.",
+   note="Trusted: feops.rs / spec.rs (conforming replies), refpred.rs (body validity). EITHER where the statement is silent: size-field-only changes, NEED_REPLY on a reply, values an endpoint may refuse for other reasons (queue count above the maximum, config flags that differ from the request).",
+   technique="mutational property testing (proptest) of reply parsers with a three-valued oracle; stream fuzzing of the request server with an independent validity oracle",
+   ref="DESIGN.md section 3, C06"),
  "C07": dict(level="exploration",
    text="Exhaustive enumeration on both endpoints: every acknowledged subset of the 10 gating protocol-feature bits (11 in the postcopy build), each also combined with all non-gating bits, x PROTOCOL_FEATURES offered/acknowledged x every gated operation on the real Frontend (a raw peer counts the bytes put on the wire) and on the real BackendReqHandler (the raw peer negotiates exactly the subset, then sends the gated request; handler log must not grow); every negotiation word up to length 3/4 (front-end API calls resp. raw messages, incl. acknowledge-then-un-acknowledge) followed by every gated operation; the 2^3 Backend-proxy flag settings x 5 requests; GET_PROTOCOL_FEATURES for 47 systematic and 2000 random device feature sets (REPLY_ACK always offered). About 220k cases in quick, complete for the stated finite spaces.",
    note="Trusted: spec.rs gate table (bit numbers), feops.rs state model of the front end. Only the refusing direction is judged (bit clear => refused, nothing on the wire / handler not invoked); the accepting direction belongs to C02. Longer negotiation histories are covered randomly by C04's model check.",
